@@ -27,6 +27,7 @@ THEOREMS = [
     "Mesa.Viz.C20_distinct_locations_distinct_positions",
     "Mesa.Viz.C20_markers_inside_the_limits",
     "Mesa.Viz.C20_network_markers_at_layout_positions",
+    "Mesa.Viz.C20_plot_one_line_per_requested_measure",
     "Mesa.Viz.C20_altair_one_row_per_agent",
     "Mesa.Viz.C20_altair_row_values",
     "Mesa.Viz.C20_altair_chart_encoding",
@@ -66,6 +67,7 @@ TRUSTED = [
     "Altair: Chart.to_dict() reports the rows given to alt.Data(values=...), the encoding channels (x / y type, colour, size, tooltip fields) and the mark properties unchanged; what Vega-Lite renders from them (a nominal colour scale maps colour names to scheme colours) is not modelled",
     "solara/reacton: solara.render runs the component function, its children and then its effects once (used for SpaceMatplotlib, SpaceAltair, ModelCreator; the Axes / Chart are taken from the post_process hook; the inputs UserInputs creates are recorded at solara's boundary — the calls of solara.SliderInt / SliderFloat / Select / Checkbox / InputText —, an input is changed by calling its on_value); a reactive value set outside a render keeps the value",
     "solara, the controls: SolaraViz is rendered by solara.render with solara.Sidebar / solara.AppBar replaced by solara.Column (outside an AppLayout their children are not rendered); buttons, sliders, the checkbox and the inputs are operated through the on_click / on_value recorded at solara's boundary, a disabled button is not clicked; threads are not run: the play loop is the function handed to solara.lab.use_task, called in the harness' thread with time.sleep (of mesa.visualization.solara_viz) as the point where the scripted user acts; that solara starts that function when playing / running change, cancels it on unmount, and what the visualisation thread does (use_threads) is not modelled; reacton's reconciliation by position (why toggling the threads checkbox remounts the controller) is observed, not modelled beyond its effect",
+    "measure plots: Axes.plot keeps the y data, label and colour it is given (read back through ax.lines); a line plotted without a colour gets the next colour of the cycle; pandas df.loc[:, m] raises KeyError(m) for a measure that was not collected",
     "networkx spring_layout(seed=0) is deterministic; under the default layout the model keeps a node's label for its layout position (under a caller-supplied layout — `drawnet` — positions are the layout's own and the lookup by label is in the model); the edges (nx.draw_networkx_edges) are not modelled and not drawn there (draw_grid=False)",
     "numpy boolean masking / np.unique / set() over the marker and z-order arrays (the model keeps the distinct values; the order of the scatter calls is not compared)",
     "positions are exact integers (hex grids in units of sqrt(3)/2 and 1/2); IEEE rounding of the hex transform is checked with tolerance 1e-6, not modelled",
@@ -76,7 +78,7 @@ ASSUMPTIONS = [
     "portrayal values are colour names, RGB / RGBA tuples (also mixed, V14), marker symbols, ints; alpha as a float; numbers to be colour-mapped are outside the generator",
     "2-D spaces",
 ]
-RULE = ("12% ctrl scenarios: the real SolaraViz on a model class taking **kw that stops at kw[stop] (ModelController, or SimulatorController with an ABMSimulator), model_params of 0-4 entries (fixed ints / dicts, int / float Slider objects, option dicts of the five input types, rarely an unsupported type), render interval 1-5, threads on / off, then 3-12 user actions: Step, play / pause, Reset, render-interval and threads changes, input changes (also of names without an input), and play loops of 0-4 scripted ticks during whose sleeps the user does nothing / pauses / resets / moves the render slider / changes an input and during whose steps (15%) clicks pause; observed after every action: model.steps, model.running, the buttons (label, disabled), the render interval, the update counter, the keyword arguments the current model was created with; 40% space scenarios: one of 12 space classes (4 mesa.space grids, 3 discrete_space grids, 2 networks with 1-6 nodes, shuffled / "
+RULE = ("3% plot scenarios: a model with a real DataCollector over 1-3 measures with 0-5 collected rows, PlotMatplotlib (through make_plot_component and solara.render, Axes taken from the post_process hook) for string / dict / list / tuple / other requests incl. measures not collected and repeated ones, the backend dispatch; 12% ctrl scenarios: the real SolaraViz on a model class taking **kw that stops at kw[stop] (ModelController, or SimulatorController with an ABMSimulator), model_params of 0-4 entries (fixed ints / dicts, int / float Slider objects, option dicts of the five input types, rarely an unsupported type), render interval 1-5, threads on / off, then 3-12 user actions: Step, play / pause, Reset, render-interval and threads changes, input changes (also of names without an input), and play loops of 0-4 scripted ticks during whose sleeps the user does nothing / pauses / resets / moves the render slider / changes an input and during whose steps (15%) clicks pause; observed after every action: model.steps, model.running, the buttons (label, disabled), the render interval, the update counter, the keyword arguments the current model was created with; 40% space scenarios: one of 12 space classes (4 mesa.space grids, 3 discrete_space grids, 2 networks with 1-6 nodes, shuffled / "
         "non-contiguous node labels and possibly no edges, Voronoi with 1-6 centroids, 2 continuous spaces; half of the mesa.space ContinuousSpaces with an origin x_min, y_min in -3..3), sizes 1-5 (4% of the mesa.space grids / ContinuousSpace: width or height 0; 3% of the networks: no node — spaces without room, which draw_space / Altair refuse), 0-6 agents with several per cell, "
         "agents never placed, a pool of 0-4 portrayal dict *objects* shared between agents (keys color/size/marker/zorder, colours as names and as RGB(A) tuples — none / all / mixed —, the optional "
         "alpha/edgecolors/linewidths under an all/none/some policy, unsupported keys), interleaved place/move/remove/dict-rewrite/"
@@ -85,7 +87,7 @@ RULE = ("12% ctrl scenarios: the real SolaraViz on a model class taking **kw tha
         "(1-3 named layers, requests of 1-4 entries in any order incl. names the space has no layer for; colour or colormap or neither; "
         "alpha absent / 25 / 50 / 100 %; range automatic, one-sided, explicit incl. without extent, cutting the data and inverted; colour bar "
         "absent / on / off; constant layers; float and int layers; drawn repeatedly; on non-grid classes), including observations of the space without agents; "
-        "48% parameter scenarios: 1-3 generated __init__ signatures (instance parameter named self/this, positional-only, missing; "
+        "45% parameter scenarios: 1-3 generated __init__ signatures (instance parameter named self/this, positional-only, missing; "
         "positional-only, positional-or-keyword, *args, keyword-only, **kwargs under any name, defaults) each with 2-6 key sets "
         "(required names mostly present, extras, the instance's name, positional-only names) through _check_model_params, "
         "ModelCreator (solara.render) and split_model_params, and through ModelCreator on full parameter dicts (fixed ints and dicts, int / float "
@@ -163,6 +165,8 @@ def nontrivial(sc, obs):
             return True
     if sc.lines[0] == "scenario params":
         return any(l.startswith("sig ") and len(l.split()) >= 4 for l in sc.lines)
+    if sc.lines[0] == "scenario plot":
+        return any(o.count(" | ") >= 2 for o in obs)
     if sc.lines[0].startswith("scenario ctrl"):
         # the model was stepped and a reset created another one
         return any(re.match(r"ok gen=[1-9]", o) for o in obs) and any(re.search(r" steps=[1-9]", o) for o in obs)
@@ -221,6 +225,18 @@ def tags(sc, obs):
         refs = [p[2] for p in ps if p[2] != "-"]
         if len(refs) != len(set(refs)):
             yield "branch:shared-portrayal-dict"
+    elif w0[1] == "plot":
+        for l, o in zip(sc.lines[1:], obs[1:]):
+            w = l.split()
+            yield "op:plot-" + w[0]
+            if w[0] == "plot":
+                yield "plot:" + w[1] + ":" + (" ".join(o.split()[:2]) if o.startswith("err") else f"{o.count(' | ')}-lines")
+                if len(w[2:]) != len(set(t.split(":")[0] for t in w[2:])):
+                    yield "plot:a-measure-twice"
+            if w[0] == "backend":
+                yield "plot-backend:" + o
+            if w[0] == "data" and w[1:] and w[1].endswith("=-"):
+                yield "plot:empty-table"
     elif w0[1] == "ctrl":
         yield "ctrl:" + w0[2]
         prev = None
